@@ -207,6 +207,7 @@ func newConcreteManifest(f *fs.Filesystem, apiClient *lfsapi.Client, operation, 
 		downloadAdapterFuncs: make(map[string]NewAdapterFunc),
 		uploadAdapterFuncs:   make(map[string]NewAdapterFunc),
 		sshTransfer:          sshTransfer,
+		maxRetryDelay:        defaultMaxRetryDelay,
 	}
 
 	var tusAllowed bool
@@ -230,9 +231,6 @@ func newConcreteManifest(f *fs.Filesystem, apiClient *lfsapi.Client, operation, 
 
 	if m.maxRetries < 1 {
 		m.maxRetries = defaultMaxRetries
-	}
-	if m.maxRetryDelay < 1 {
-		m.maxRetryDelay = defaultMaxRetryDelay
 	}
 
 	if m.concurrentTransfers < 1 {
